@@ -71,6 +71,20 @@ PROPS = {
         "technique": "Lean 4 proof (invariant by induction over operation lists) + source translation + correspondence",
         "assumptions": ["fewer than 2^32 messages per direction (as in the property statement)", "AEAD integrity for identifying IVs by trial decryption"],
     },
+    "C08": {
+        "rule": "whole sessions for every retrieval configuration of C18 (no / BLE / NFC / Wi-Fi / combinations; fresh ephemeral keys; thorough: 6 repetitions): the Lean model recomputes SKReader, SKDevice (from the engagement bytes of the QR code, the EReaderKey bytes of the SessionEstablishment, the handover and the device's ephemeral scalar read from the stored engaged state: own P-256 scalar multiplication, SHA-256, HMAC, HKDF) and the BLE ident, "
+                "compared with sk_reader / sk_device in the stringified state of BOTH roles and with both ble idents; engagements re-encoded non-canonically (non-minimal heads, reversed map order, indefinite lengths, unknown and RFU entries) handed to the reader, with a device restored from a stored state carrying those bytes; stored NFC / OID4VP handovers on the device; derive_session_key on random secrets and transcripts with every handover kind; "
+                "peer keys (valid explicit / compressed both roots / negated; off-curve by one bit in x or y; valid point under another curve id; zero pair; x = p; all-ff; OKP; wrong lengths) through get_shared_secret, process_session_establishment and establish_session: refused exactly when the model refuses, and the shared secret equals the model's ECDH. Distinct by input bytes",
+        "xlate_items": [],
+        "trusted_base": ["Model/Sha2.lean and Model/P256.lean are executable Lean implementations validated (not proved) against FIPS 180-4 / RFC 4231 / RFC 5869 / RFC 6979 vectors and against sha2 / hkdf / p256 on every generated case (public keys, shared secrets, session keys)",
+                         "Model/KeyDerivation.lean (hand-written) tied by correspondence on every generated session", "ECDH symmetry (both roles compute the same Z) is observed on every session, not proved",
+                         "the device's ephemeral scalar is read from the stringified engaged state (serde view of the real struct)"],
+        "level_text": "Lean theorems: for EVERY shared secret, transcript and role the model's session key is HKDF-SHA-256 in RFC 5869 one-block form with IKM = Z, salt = SHA-256(#6.24(bstr transcript)), info = the bytes of \"SKReader\" / \"SKDevice\", L = 32; the BLE ident likewise with IKM = #6.24(bstr EDeviceKey), empty salt (= HashLen zeros, proved), \"BLEIdent\", L = 16; the two labels differ; the transcript bytes determine engagement bytes, EReaderKey bytes and handover (encoder injectivity); "
+                      "every peer key the model accepts is a valid P-256 point (coordinates in the field and on the curve - including the decompression branch, by a modular-arithmetic proof), every key of another curve id or key type is refused whatever its coordinates, a refused key yields no session keys, and the conversion never panics. The independent implementation is run against the real keys of both roles on every case.",
+        "level_note": "Trusted: Lean kernel; that the Lean SHA-256 and P-256 arithmetic implement the standards is validated by vectors and by agreement with the Rust crates on every run, not proved; group-law facts (ECDH symmetry) are observed, not proved.",
+        "technique": "Lean 4 proof (algebraic unfolding of HKDF, modular arithmetic for point decompression, encoder injectivity) + an independent executable Lean implementation of SHA-256/HMAC/HKDF/P-256 run against the real session keys",
+        "assumptions": ["SHA-256 / P-256 model = the standards (validated by vectors)"],
+    },
     "C09": {
         "rule": "(a) DigestId::new on the boundary set of its 2^32 inputs + random draws, against the regenerated Lean definition and the range predicate; (b) issuances over generated namespace maps "
                 "(1-4 namespaces, 1-40 elements, arbitrary nested CBOR values), three digest algorithms, decoys on/off, direct and prepare/complete signing, non-UTC sub-second validity; every element digest is recomputed "
